@@ -121,6 +121,82 @@ def simp(e):
     return e
 
 
+def tz_bits(e, depth=0):
+    """conservative number of trailing zero bits of the bit-vector term e"""
+    w = e.size()
+    if z3.is_bv_value(e):
+        v = e.as_long(); return w if v == 0 else (v & -v).bit_length() - 1
+    if depth > 60 or not z3.is_app(e): return 0
+    k = e.decl().kind()
+    if k == z3.Z3_OP_CONCAT:
+        n = 0
+        for c in reversed(e.children()):
+            t = tz_bits(c, depth + 1); n += t
+            if t < c.size(): break
+        return n
+    if k == z3.Z3_OP_BMUL: return min(w, sum(tz_bits(c, depth + 1) for c in e.children()))
+    if k in (z3.Z3_OP_BADD, z3.Z3_OP_BSUB): return min(tz_bits(c, depth + 1) for c in e.children())
+    if k == z3.Z3_OP_BNEG: return tz_bits(e.arg(0), depth + 1)
+    if k == z3.Z3_OP_ITE: return min(tz_bits(e.arg(1), depth + 1), tz_bits(e.arg(2), depth + 1))
+    return 0
+
+
+def shr_exact(e, k):
+    """term of width w-k equal to Extract(w-1, k, e) for a term e with at least k trailing zero bits (e = e' * 2^k): the shift is
+    pushed into products and sums.  clang -O1 packs pairs of i32 into one i64 and computes `(c * (x << 32)) >> 32`; z3 has no
+    rewrite for the high half of such a product and its bit-blaster does not decide the resulting multiplier equivalences."""
+    w = e.size()
+    if k == 0: return e
+    if z3.is_bv_value(e): return z3.BitVecVal(e.as_long() >> k, w - k)
+    kind = e.decl().kind() if z3.is_app(e) else None
+    if kind == z3.Z3_OP_CONCAT:
+        ch = e.children(); rem = k
+        while rem > 0:
+            c = ch[-1]
+            if c.size() <= rem: rem -= c.size(); ch = ch[:-1]
+            else: ch = ch[:-1] + [shr_exact(c, rem)]; rem = 0
+        return ch[0] if len(ch) == 1 else z3.Concat(*ch)
+    if kind == z3.Z3_OP_BMUL:
+        rem = k; r = None
+        for c in e.children():
+            t = min(tz_bits(c), rem); g = shr_exact(c, t) if t else c; rem -= t
+            if g.size() > w - k: g = z3.Extract(w - k - 1, 0, g)
+            r = g if r is None else r * g
+        if rem == 0: return r
+    elif kind in (z3.Z3_OP_BADD, z3.Z3_OP_BSUB):
+        r = None
+        for c in e.children():
+            g = shr_exact(c, k)
+            r = g if r is None else (r + g if kind == z3.Z3_OP_BADD else r - g)
+        return r
+    elif kind == z3.Z3_OP_BNEG: return -shr_exact(e.arg(0), k)
+    elif kind == z3.Z3_OP_ITE: return z3.If(e.arg(0), shr_exact(e.arg(1), k), shr_exact(e.arg(2), k))
+    return z3.Extract(w - 1, k, e)
+
+
+def norm_extracts(e, cache):
+    """rewrite every Extract(hi, lo, t), lo > 0, whose argument is a multiple of 2^lo (shr_exact) or a sum in which at most one
+    summand has non-zero low bits (no carry into bit lo: the extract distributes over the sum).  Applied to hard queries only."""
+    if not z3.is_app(e) or e.num_args() == 0: return e
+    i = e.get_id(); hit = cache.get(i)
+    if hit is not None: return hit[1]
+    ch = e.children(); nch = [norm_extracts(c, cache) for c in ch]
+    r = e
+    if any(a is not b for a, b in zip(ch, nch)): r = e.decl()(*nch)
+    if e.decl().kind() == z3.Z3_OP_EXTRACT:
+        hi, lo = e.params(); t = nch[0]
+        if lo > 0:
+            t = z3.simplify(t)
+            if tz_bits(t) >= lo: r = z3.simplify(z3.Extract(hi - lo, 0, shr_exact(t, lo)))
+            elif z3.is_app(t) and t.decl().kind() == z3.Z3_OP_BADD and sum(1 for c in t.children() if tz_bits(c) < lo) <= 1:
+                parts = [z3.Extract(hi - lo, 0, shr_exact(c, lo)) if tz_bits(c) >= lo else norm_extracts(z3.simplify(z3.Extract(hi, lo, c)), cache) for c in t.children()]
+                r = parts[0]
+                for q in parts[1:]: r = r + q
+                r = z3.simplify(r)
+    cache[i] = (e, r)
+    return r
+
+
 class Frame:
     __slots__ = ('fn', 'block', 'idx', 'env', 'prev', 'allocas', 'dst', 'normal', 'unwind', 'visits', 'mod')
 
@@ -155,6 +231,7 @@ class State:
 class Limits:
     def __init__(s, loop=64, depth=200, steps=4000000, paths=20000, query_ms=60000, fork_width=64, wall=600.0, fast_ms=250, merge=True):
         s.loop = loop; s.depth = depth; s.steps = steps; s.paths = paths; s.query_ms = query_ms; s.fork_width = fork_width; s.wall = wall; s.fast_ms = fast_ms; s.merge = merge
+        s.som = False  # harness option som=1: decide hard queries through z3's sum-of-monomials normal form first (ring identities over bit-vectors)
 
 
 class Exec:
@@ -164,7 +241,7 @@ class Exec:
         s.solver = z3.Solver(); s.solver.set('timeout', min(s.lim.fast_ms, s.lim.query_ms)); s.fallbacks = 0; s.merges = 0
         s.queries = 0; s.qtime = 0.0; s.qmax = 0.0; s.cache_hits = 0
         s.paths = []; s.violations = []; s.vkeys = set(); s.reached = {}; s.insn = 0; s.forks = 0
-        s.gaddr = {}; s.fnids = {}; s.fnnames = []; s.ufs = {}; s.uf_used = {}
+        s.gaddr = {}; s.fnids = {}; s.fnnames = []; s.ufs = {}; s.uf_used = {}; s.bytecache = {}; s.normcache = {}
         s.fn_of = {}
         for m in mods:
             for n, f in m.fns.items():
@@ -177,17 +254,27 @@ class Exec:
     # ---------- solver
     def _check(s, assumptions):
         """incremental attempt with a short timeout first (cheap on the many trivial queries); z3's assumption mode skips
-        most preprocessing, so anything it cannot do quickly goes to a fresh solver with the formulas asserted."""
+        most preprocessing, so anything it cannot do quickly goes to a fresh solver with the formulas asserted.
+        Harness option som=1 (ring identities over bit-vectors, which the bit-blaster does not decide): the fresh attempts are
+        som(3 s) -> plain(query_ms) -> som(query_ms), where som = z3's polynomial rewriter (simplify with som=true:
+        sum-of-monomials normal form modulo 2^n) followed by smt."""
         t = time.time(); s.queries += 1
         r = s.solver.check(*assumptions)
-        if r == z3.unknown:
-            s.fallbacks += 1
-            fs = z3.Solver(); fs.set('timeout', s.lim.query_ms); fs.add(*assumptions); r = fs.check()
+        if r != z3.unknown:
             dt = time.time() - t; s.qtime += dt; s.qmax = max(s.qmax, dt)
-            if r == z3.unknown: raise Inconclusive('solver returned unknown (%s) after %.1fs' % (fs.reason_unknown(), dt))
-            return fs.model() if r == z3.sat else None
+            return s.solver.model() if r == z3.sat else None
+        s.fallbacks += 1
+        som = getattr(s.lim, 'som', False)
+        if som: assumptions = [norm_extracts(a, s.normcache) for a in assumptions]
+        stages = ([('som', min(s.lim.query_ms, 3000))] if som else []) + [('plain', s.lim.query_ms)] + ([('som', s.lim.query_ms)] if som else [])
+        fs = None
+        for kind, ms in stages:
+            fs = z3.Then(z3.With('simplify', som=True, som_blowup=100000000), 'smt').solver() if kind == 'som' else z3.Solver()
+            fs.set('timeout', ms); fs.add(*assumptions); r = fs.check()
+            if r != z3.unknown: break
         dt = time.time() - t; s.qtime += dt; s.qmax = max(s.qmax, dt)
-        return s.solver.model() if r == z3.sat else None
+        if r == z3.unknown: raise Inconclusive('solver returned unknown (%s) after %.1fs' % (fs.reason_unknown(), dt))
+        return fs.model() if r == z3.sat else None
 
     def feasible(s, st, cond=None):
         """returns a model of pc (and cond) or None"""
@@ -344,7 +431,9 @@ class Exec:
             if n == 8 and isinstance(c0, tuple) and all(isinstance(c, tuple) and c[1] == k and s.same_ptr(c[0], c0[0]) for k, c in enumerate(cells)):
                 return s.p2i(c0[0])
             raise Inconclusive('integer load of partial pointer bytes')
-        e = z3.Concat(*[bv(c, 8) for c in reversed(cells)]) if n > 1 else bv(cells[0], 8)
+        hit = s.bytecache.get(tuple(c.get_id() if is_sym(c) else ('c', c) for c in cells)) if n > 1 else None
+        if hit is not None: e = hit[0]
+        else: e = z3.Concat(*[bv(c, 8) for c in reversed(cells)]) if n > 1 else bv(cells[0], 8)
         if isinstance(ty, IntT) and ty.n != n * 8: e = z3.Extract(ty.n - 1, 0, e)
         return simp(e)
 
@@ -389,7 +478,34 @@ class Exec:
             return list(struct.pack('<f' if n == 4 else '<d', x))
         w = n * 8; vn = v.size()
         e = v if vn == w else z3.ZeroExt(w - vn, v)
-        return [simp(z3.Extract(8 * k + 7, 8 * k, e)) for k in range(n)]
+        tz = tz_bits(e) if w > 8 else 0
+        sh = {}
+
+        def ext(hi, lo):
+            # Extract(hi, lo, e); trailing zero bits of e are shifted out structurally first (see shr_exact)
+            t = min(tz, lo)
+            if t == 0: return simp(z3.Extract(hi, lo, e))
+            if t not in sh: sh[t] = shr_exact(e, t)
+            return simp(z3.Extract(hi - t, lo - t, sh[t]))
+        bs = [ext(8 * k + 7, 8 * k) for k in range(n)]
+        s.remember_bytes(bs, e, ext)
+        return bs
+
+    def remember_bytes(s, bs, e, ext):
+        """store->load round trip: z3 rewrites the low byte of a product/sum into a product/sum of bytes, after which the
+        concatenation of the bytes no longer simplifies back to the stored word (fatal for arithmetic reasoning).  Remember which
+        word (and which aligned 2/4/8-byte sub-word) a run of byte terms came from; assemble() looks the run up first."""
+        n = len(bs)
+        if n < 2: return
+        for size in sorted(set((2, 4, 8, n))):
+            if size > n: break
+            for o in range(0, n - size + 1, size):
+                grp = bs[o:o + size]
+                if not any(is_sym(b) for b in grp): continue
+                key = tuple(b.get_id() if is_sym(b) else ('c', b) for b in grp)
+                if key not in s.bytecache:
+                    val = e if (size == n and o == 0) else ext(8 * (o + size) - 1, 8 * o)
+                    s.bytecache[key] = (val, grp)  # grp is kept alive so that the ast ids stay unique
 
     def fnid(s, name):
         i = s.fnids.get(name)
@@ -872,8 +988,12 @@ class Exec:
         elif op == 'sdiv': r = A / B
         elif op == 'srem': r = z3.SRem(A, B)
         elif op == 'shl': r = A << B
-        elif op == 'lshr': r = z3.LShR(A, B)
-        elif op == 'ashr': r = A >> B
+        elif op in ('lshr', 'ashr'):
+            r = None
+            if not is_sym(b) and 0 < b < n and is_sym(a):
+                A = z3.simplify(A)
+                if tz_bits(A) >= b: r = (z3.ZeroExt if op == 'lshr' else z3.SignExt)(b, shr_exact(A, b))
+            if r is None: r = z3.LShR(A, B) if op == 'lshr' else A >> B
         else: raise Inconclusive('binop ' + op)
         return simp(r)
 
@@ -1385,11 +1505,13 @@ def main():
     ap.add_argument('ll', nargs='+'); ap.add_argument('--entry', required=True); ap.add_argument('--param', action='append', default=[])
     ap.add_argument('--loop', type=int, default=64); ap.add_argument('--concrete', default=None); ap.add_argument('--throws', default='')
     ap.add_argument('--leak', action='store_true'); ap.add_argument('--json', action='store_true'); ap.add_argument('--wall', type=float, default=600)
+    ap.add_argument('--som', action='store_true')
     a = ap.parse_args()
     params = {}
     for kv in a.param: k, v = kv.split('='); params[k] = int(v)
     conc = json.loads(a.concrete) if a.concrete else None
-    r = run_harness(a.ll, a.entry, params, conc, Limits(loop=a.loop, wall=a.wall), [t for t in a.throws.split(',') if t], a.leak)
+    lim = Limits(loop=a.loop, wall=a.wall); lim.som = a.som
+    r = run_harness(a.ll, a.entry, params, conc, lim, [t for t in a.throws.split(',') if t], a.leak)
     if a.json: print(json.dumps(r, indent=1, default=str))
     else:
         print('status', r['status'], r.get('reason', ''))
